@@ -3,6 +3,7 @@ package c07
 
 import (
 	"fmt"
+	"strings"
 	"sync"
 	"sync/atomic"
 	"testing"
@@ -29,15 +30,20 @@ type Case struct {
 	NIdent int  `json:"nident"`
 	// Sanitize: the root has a sanitizer and every identity is a tagged scope that can be requested
 	// through two raw spellings ("v_0" and "v.0") that sanitize to the same tag value
-	Sanitize bool      `json:"sanitize,omitempty"`
-	Apps     [][]AppOp `json:"apps"`
-	Passes   []int     `json:"passes"`
-	Sched    []int     `json:"sched"`
+	Sanitize bool `json:"sanitize,omitempty"`
+	// Wide (with Sanitize): the alias spelling differs from the canonical one in a two-byte rune
+	// ("v\u00e90" for "v_0"), so the raw key is longer than the canonical key, and the identities'
+	// canonical values are each other's extensions by one byte ("v_0", "v_00", "v_000")
+	Wide   bool      `json:"wide,omitempty"`
+	Apps   [][]AppOp `json:"apps"`
+	Passes []int     `json:"passes"`
+	Sched  []int     `json:"sched"`
 }
 
 func gen(t *rapid.T) Case {
 	c := Case{Cached: rapid.Bool().Draw(t, "cached"), Shards: uint(rapid.SampledFrom([]int{1, 1, 2, 4}).Draw(t, "shards")), NIdent: rapid.IntRange(1, 3).Draw(t, "nident")}
 	c.Sanitize = rapid.IntRange(0, 3).Draw(t, "sanitize") == 0
+	c.Wide = c.Sanitize && rapid.Bool().Draw(t, "wide")
 	na := rapid.IntRange(1, 3).Draw(t, "napps")
 	for a := 0; a < na; a++ {
 		n := rapid.IntRange(2, 8).Draw(t, "nops")
@@ -62,17 +68,27 @@ func gen(t *rapid.T) Case {
 	return c
 }
 
-func deriveSan(root tally.Scope, i int, alias bool) tally.Scope {
+func deriveSan(root tally.Scope, i int, alias, wide bool) tally.Scope {
+	if wide {
+		v := "v_0"
+		if alias {
+			v = "v\u00e90"
+		}
+		return root.Tagged(map[string]string{"t": v + strings.Repeat("0", i)})
+	}
 	if alias {
 		return root.Tagged(map[string]string{"t": fmt.Sprintf("v%d.0", i)})
 	}
 	return root.Tagged(map[string]string{"t": fmt.Sprintf("v%d_0", i)})
 }
 
-func identSan(i int, child bool) string {
+func identSan(i int, child, wide bool) string {
 	name := "c"
 	if child {
 		name = "child.c"
+	}
+	if wide {
+		return rec.ID(name, map[string]string{"t": "v_0" + strings.Repeat("0", i)})
 	}
 	return rec.ID(name, map[string]string{"t": fmt.Sprintf("v%d_0", i)})
 }
@@ -128,13 +144,13 @@ func run(c Case) (pbt.Outcome, error) {
 	root, _ := tally.VerifNewRootScope(opts, 0, c.Shards)
 	get := func(i int, alias bool) tally.Scope {
 		if c.Sanitize {
-			return deriveSan(root, i, alias)
+			return deriveSan(root, i, alias, c.Wide)
 		}
 		return derive(root, i)
 	}
 	id := func(i int, child bool) string {
 		if c.Sanitize {
-			return identSan(i, child)
+			return identSan(i, child, c.Wide)
 		}
 		return ident(i, child)
 	}
@@ -303,6 +319,9 @@ func run(c Case) (pbt.Outcome, error) {
 	}
 	if c.Sanitize {
 		out.Classes = append(out.Classes, "sanitizer-aliases")
+		if c.Wide {
+			out.Classes = append(out.Classes, "alias-longer-than-canonical")
+		}
 	}
 	if sched.PreemptedAt(res.Trace, "registry.remove:") {
 		out.Classes = append(out.Classes, "preempted-lock-handover")
@@ -313,7 +332,7 @@ func run(c Case) (pbt.Outcome, error) {
 func TestC07(t *testing.T) {
 	pbt.Main(t, pbt.Prop[Case]{
 		ID: "C07", Name: "sched",
-		Rule: "cooperative-scheduler mode: rapid generates 1..3 identities (SubScope and Tagged; in a quarter of the cases a root with a sanitizer whose identities can each be requested through two raw tag spellings that sanitize identically), shard count 1/2/4, plain/cached, 1..3 application threads each 2..8 ops from {obtain(identity) into a shared slot, Inc on the slot's scope, Close the slot's scope, derive a child of it and Inc there}, 1..2 modelled ticker threads x 1..3 passes, AND the schedule (<=200 choices incl. the yield points around the registry's lock hand-over, between 'report scope' and the closed-flag handling, and inside the re-acquire path). Then two sequential passes. Oracle per identity: L <= delivered <= U with L = increments that completed before Close was called on their scope object plus all increments on objects never closed, U = all increments; children derived from an already closed scope deliver nothing; the live scope obtained last is still registered; a request never returns a scope object whose Close had returned before the request started; Close returns nil; no panic; deadlock decided exactly by the scheduler. Non-trivial: a re-acquire happened and some registry window (lock hand-over, report/closed check, re-acquire path) was preempted. Distinct: FNV-64 of program+schedule JSON.",
+		Rule: "cooperative-scheduler mode: rapid generates 1..3 identities (SubScope and Tagged; in a quarter of the cases a root with a sanitizer whose identities can each be requested through two raw tag spellings that sanitize identically - differing in a one-byte character or, half the time, in a two-byte rune so that the raw key is longer than the canonical one while the identities' values extend each other by one byte), shard count 1/2/4, plain/cached, 1..3 application threads each 2..8 ops from {obtain(identity) into a shared slot, Inc on the slot's scope, Close the slot's scope, derive a child of it and Inc there}, 1..2 modelled ticker threads x 1..3 passes, AND the schedule (<=200 choices incl. the yield points around the registry's lock hand-over, between 'report scope' and the closed-flag handling, and inside the re-acquire path). Then two sequential passes. Oracle per identity: L <= delivered <= U with L = increments that completed before Close was called on their scope object plus all increments on objects never closed, U = all increments; children derived from an already closed scope deliver nothing; the live scope obtained last is still registered; a request never returns a scope object whose Close had returned before the request started; Close returns nil; no panic; deadlock decided exactly by the scheduler. Non-trivial: a re-acquire happened and some registry window (lock hand-over, report/closed check, re-acquire path) was preempted. Distinct: FNV-64 of program+schedule JSON.",
 		Gen:  gen, Run: run, Retries: 30,
 	})
 }
